@@ -11,6 +11,7 @@
 import NiftyVerif.Lemmas.AllreduceTree
 import NiftyVerif.Lemmas.AllreduceFull
 import NiftyVerif.Lemmas.AllreduceMsgs
+import NiftyVerif.Lemmas.AllreduceReplay
 
 namespace NiftyVerif.C23
 open NiftyVerif.Allreduce
@@ -281,6 +282,24 @@ theorem dtype_detection_order_independent {α} [DecidableEq α] (ls : Nat → Li
   · rintro ⟨r, hr, hx⟩; exact ⟨r, (hranks r).mp hr, hx⟩
   · rintro ⟨r, hr, hx⟩; exact ⟨r, (hranks r).mpr hr, hx⟩
 
+/-! ### trace validation: the order of events observed by the communicator in a real run -/
+
+/-- **observed_run_is_model_run**: if the executable replay accepts an observed global order of rendezvous and collectives
+    (each must be an enabled transition; local additions are performed silently), the observation is a run of the
+    transition system — and if it leaves every rank finished, the slots hold the pairwise tree.  Used by the harness on
+    the orders recorded by the fake MPI hub during real `allreduce_sum` runs. -/
+theorem observed_run_is_model_run (counts : List Nat) (hp : 0 < counts.length) (n : Nat) (hn : 0 < n)
+    (m : Nat) (hm : 0 < m) (pre post : List Nat) (fuel : Nat) (obs : List Obs) (x' : XSt)
+    (h : replay counts.length fuel
+      (xInit counts.length (whoOf counts) pre post (expand (whoOf counts) m (events n)) (initStore n)) obs = some x') :
+    (∃ k, FReach counts.length (whoOf counts) pre post (expand (whoOf counts) m (events n)) (initStore n) k x'.toF) ∧
+    ((∀ r, x'.toF.prog r = []) → x'.store 0 = some (pairwiseTree n)) := by
+  have hstar := replay_star counts.length fuel obs _ x' (by simp [xInit]) h
+  rw [xInit_toF] at hstar
+  obtain ⟨k, hk⟩ := freach_of_star FReach.zero hstar
+  refine ⟨⟨k, hk⟩, fun hfin => ?_⟩
+  exact (full_allreduce_all_schedules counts hp n hn m hm pre post hk (no_step_of_all_nil hp hfin)).2
+
 /-! ### non-vacuity -/
 
 -- 5 summands: ((0+1)+(2+3))+4
@@ -291,6 +310,13 @@ example : (events 5).map (fun e => (e.dst, e.src)) = [(0, 1), (2, 3), (0, 2), (0
 example : proj (whoOf [2, 0, 3]) 2 (events 5) =
     [.loc ⟨2, 3, 0, true⟩, .send 0 ⟨0, 2, 0, true⟩, .send 0 ⟨0, 4, 0, true⟩] := by decide
 example : proj (whoOf [2, 0, 3]) 1 (events 5) = [] := by decide
+-- 3 summands on ranks [1,2]: allgather, allreduce, rank 1 ships slot 1 then slot 2 to rank 0, two bcasts: accepted;
+-- the same observation with the two collectives first is NOT a run of the model
+example : ((replay 2 4 (xInit 2 (whoOf [1, 2]) [0, 1] [2, 3] (events 3) (initStore 3))
+    [.coll 0, .coll 1, .p2p 1 0, .p2p 1 0, .coll 2, .coll 3]).map (fun x => (x.progs, (x.store 0).map T.toString))) =
+    some ([[], []], some "((0+1)+2)") := by decide
+example : (replay 2 4 (xInit 2 (whoOf [1, 2]) [0, 1] [2, 3] (events 3) (initStore 3))
+    [.coll 0, .coll 1, .coll 2, .p2p 1 0, .p2p 1 0, .coll 3]).isNone = true := by decide
 -- a Field transfer = two pickled messages; an ndarray transfer = a pickled header and a buffer
 example : (proj (whoOf [1, 1]) 1 (expand (whoOf [1, 1]) (sendSeq .ndarray).length (events 2))).filterMap (toCall .ndarray)
     = [.send 0 .obj, .send 0 .buf] := by decide
